@@ -50,7 +50,7 @@ func runC05(w *mon.W) {
 	c05Scale(w)
 	c05Vacuous(w)
 	r := w.Rng
-	total := w.Share(w.Pick(4000, 120000))
+	total := w.Share(w.Pick(6000, 120000))
 	for it := 0; it < total; it++ {
 		n := 1 + it%8
 		s := chain.FullConformant(r, n, 25)
@@ -204,7 +204,7 @@ func runC05(w *mon.W) {
 // hook path) and once more through a second invocation sharing the delegations.
 func c05Scale(w *mon.W) {
 	r := w.Rng
-	total := w.Share(w.Pick(200, 4000))
+	total := w.Share(w.Pick(500, 4000))
 	counts := []int{0, 1, 5, 17, 33, 65, 130}
 	segs := []string{"a", "b", "crud", "é", "è", "ほげ", "x-y"}
 	for it := 0; it < total; it++ {
@@ -302,7 +302,7 @@ func c05Scale(w *mon.W) {
 // unrelated ones. Nothing is violated, so the chain must be allowed.
 func c05Vacuous(w *mon.W) {
 	r := w.Rng
-	for it := 0; it < w.Share(w.Pick(300, 6000)); it++ {
+	for it := 0; it < w.Share(w.Pick(900, 6000)); it++ {
 		n := 1 + r.IntN(4)
 		s := chain.Conformant(r, n, 3)
 		switch it % 3 {
